@@ -344,9 +344,9 @@ class World(S.WorldComponent):
     theorems = ["flight_accounting", "timer_armed", "t3_progress", "receiveSack_never_raises", "no_crash_reachable",
                 "sack_describes_misordered", "after_transmit", "receiver_invariant", "C02_drains_partial"]
     ssn_share = 4
-    mix = [("early", False, 1), ("ssnwrap", False, 2), ("reliable-heavy-loss", False, 3), ("reliable", False, 2), ("reliable-heavy-loss", True, 1), ("mixed-pr", False, 2),
+    mix = [("early", False, 3), ("ssnwrap", False, 2), ("reliable-heavy-loss", False, 3), ("reliable", False, 2), ("reliable-heavy-loss", True, 1), ("mixed-pr", False, 2),
            ("reorder-frag", True, 3), ("strike", False, 3), ("expiry", False, 1)]
-    quick = (33, 280)
+    quick = (48, 280)
     thorough = (260, 500)
     oracles = [S.oracle_no_crash, oracle_invariants, S.oracle_c02, S.oracle_recovers]
 
